@@ -141,6 +141,9 @@ IOFailing(a, ev) ==
 (*               (plain iteration, no index), scan_raised = 1 if it raised *)
 (*   reads       read operations made afterwards on the live object, each  *)
 (*               either raised or must equal the answer over `scan`        *)
+(*   valid, ix   the index flag and observations right after the fault    *)
+(*   rm          a later remove on the same object: result and the storage *)
+(*               it left (a rewrite after a failed one must still be right)*)
 (*   ins_ok      whether one more insert (of point `extra`) succeeded      *)
 (*   final       decoding of the file after close                          *)
 (***************************************************************************)
@@ -150,12 +153,20 @@ FaultFailing(a, ev) ==
   IF ~ HasFault(ev) \/ ev.fault.injected = 0 THEN {} ELSE
   LET f  == ev.fault
       ok == CrashAllowed(a, store)
-      finals == IF f.ins_ok = 1 THEN {Append(s, f.extra) : s \in ok} ELSE ok \cup {Append(s, f.extra) : s \in ok}
+      rmOK == f.rm.exc = "" /\ f.rm.scan_raised = 0
+      (* contents the later remove may leave: it ran on some allowed contents, or it failed *)
+      afterRm == IF f.rm.exc = "" THEN {StoreAfter(f.rm.a, s) : s \in ok} ELSE ok \cup {StoreAfter(f.rm.a, s) : s \in ok}
+      finals == IF f.ins_ok = 1 THEN {Append(s, f.extra) : s \in afterRm} ELSE afterRm \cup {Append(s, f.extra) : s \in afterRm}
   IN   (IF f.oserr = 0 THEN {[clause |-> "fault_reported", expected |-> 1]} ELSE {})
   \cup (IF f.scan_raised = 0 /\ f.scan \notin ok THEN {[clause |-> "fault_storage", expected |-> SetToSeq(ok)]} ELSE {})
   \cup (IF f.scan_raised = 0 /\ f.scan \in ok /\
            \E i \in 1..Len(f.reads) : f.reads[i].exc = "" /\ f.reads[i].res # Result(f.reads[i].a, f.scan)
         THEN {[clause |-> "fault_reads", expected |-> [i \in 1..Len(f.reads) |-> Result(f.reads[i].a, f.scan)]]} ELSE {})
+  \cup (IF f.scan_raised = 0 /\ f.scan \in ok /\ f.valid = 1 /\ (f.ix.n # Len(f.scan) \/ f.ix.live # f.ix.fresh)
+        THEN {[clause |-> "fault_index", expected |-> f.ix.fresh]} ELSE {})
+  \cup (IF f.scan_raised = 0 /\ f.scan \in ok /\ rmOK /\
+           (f.rm.res # Result(f.rm.a, f.scan) \/ f.rm.scan # StoreAfter(f.rm.a, f.scan))
+        THEN {[clause |-> "fault_later_write", expected |-> StoreAfter(f.rm.a, f.scan)]} ELSE {})
   \cup (IF f.final \notin finals THEN {[clause |-> "fault_file", expected |-> SetToSeq(finals)]} ELSE {})
 
 Failing(a, ev) ==
